@@ -11,6 +11,7 @@ STORAGE  add_storage_header: timestamp <- argument (or from_ms(now)), ECU id <- 
          every other field unchanged.
 VALID    Argument::valid() is false for Bool / Float32 / Float64 kinds carrying a value of another variant.
 """
+import os
 from engine.interp import Engine
 from engine.lin import Lin
 from engine.values import Bool, Cont, Enum, Int, Ref, Slice, Struct, Top
@@ -196,6 +197,16 @@ def overall_len(ctx):
         R.violation("LEN", BYTE_LEN + "|forwards", "byte_len() is not header.overall_length() of the message's own header", function=BYTE_LEN)
 
 
+def _same_as_arg(v, name, fields=None):
+    """v is the argument `name` itself: the symbolic value, or a struct whose every field is the same field of it
+    (a field-by-field copy); a value merely *computed from* the argument (arithmetic, a constructor call) is not."""
+    if isinstance(v, Top):
+        return v.name == name
+    if isinstance(v, Struct):
+        return fields is not None and len(fields) == len(v.fields) and all(isinstance(f, Top) and f.name == "%s.%s" % (name, fields[i]) for i, f in enumerate(v.fields))
+    return False
+
+
 def storage(ctx):
     F, R = ctx.facts, ctx.report
     eng = Engine(F)
@@ -206,6 +217,7 @@ def storage(ctx):
     outs = eng.call_path(ADD_SH, eng.symbolic_args(b, names=["self", "time_stamp"]))
     i_sh, i_hdr, i_ext, i_pl = (fidx(F, "dlt::Message", n) for n in ("storage_header", "header", "extended_header", "payload"))
     i_ts, i_ecu = fidx(F, "dlt::StorageHeader", "timestamp"), fidx(F, "dlt::StorageHeader", "ecu_id")
+    ts_fields = {fidx(F, "dlt::DltTimeStamp", nm): nm for nm in ("seconds", "microseconds")}
     n = 0
     for st, rv in outs:
         kd = lib_wire.key_dict(st)
@@ -225,7 +237,7 @@ def storage(ctx):
             ts = s.fields[i_ts]
             tsk = kd.get("time_stamp")
             if tsk == "Some":
-                if not (isinstance(ts, Top) and ts.name == "time_stamp.Some.0") and not (isinstance(ts, Struct) and "time_stamp.Some.0" in repr(ts)):
+                if not _same_as_arg(ts, "time_stamp.Some.0", ts_fields):
                     bad.append("timestamp is not the one passed in (%r)" % (ts,))
             ecu = s.fields[i_ecu]
             ek = kd.get("self.header.ecu_id")
